@@ -7,6 +7,9 @@ def _find_replace(rows, fields):
     for row in rows:
         for field in fields:
             for pattern in field.get('patterns', []):
+                if row[field['name']] is None:
+                    # a missing value has no text to search: it stays missing
+                    continue
                 row[field['name']] = re.sub(
                     str(pattern['find']),
                     str(pattern['replace']),
